@@ -14,6 +14,7 @@ from .inval import api_functions, base
 
 # dimension classes of problem arrays (record::field suffix -> class)
 ROW, STRUCT, COL = "row", "struct", "col"
+NNB = "non-basic position"      # position in lpinfo::nbaz: only R-IDXCLASS types with it
 ARRAYS = {
     "ILLlpdata::rhs": ROW, "ILLlpdata::sense": ROW, "ILLlpdata::rangeval": ROW, "ILLlpdata::rowmap": ROW, "ILLlpdata::rownames": ROW,
     "ILLlp_cache::pi": ROW, "ILLlp_cache::slack": ROW, "ILLlp_basis::rstat": ROW, "QSbasis::rstat": ROW, "qsbasis::rstat": ROW,
@@ -27,6 +28,7 @@ DIMS = {
     "ILLlpdata::nstruct": STRUCT, "ILLlp_cache::nstruct": STRUCT, "QSbasis::nstruct": STRUCT, "qsbasis::nstruct": STRUCT, "ILLlp_basis::nstruct": STRUCT,
     "ILLlpdata::ncols": COL, "ILLmatrix::matcols": COL, "lpinfo::ncols": COL,
 }
+NNB_DIMS = {"lpinfo::nnbasic": NNB}
 # a bound of class a implies the bound of class b (nstruct <= ncols)
 IMPLIES = {ROW: {ROW}, STRUCT: {STRUCT, COL}, COL: {COL}}
 
